@@ -372,9 +372,14 @@ class Client:
 
     def check_key(self, key: Key, key_prefix: bytes) -> bytes:
         """Checks key and add key_prefix."""
-        return check_key_helper(
+        key = check_key_helper(
             key, allow_unicode_keys=self.allow_unicode_keys, key_prefix=key_prefix
         )
+        if not key:
+            # an empty key would leave a command with nothing in the key
+            # position, which the server cannot parse
+            raise MemcacheIllegalInputError("Key is empty")
+        return key
 
     def _connect(self) -> None:
         self.close()
